@@ -304,8 +304,8 @@ func verifC23NoCustomRangeKeyTable(m *TableMetadata) bool {
 	return m.HasRangeKeys && m.CreationTime == 0 && !m.Virtual && len(m.BlobReferences) == 0 && m.RangeKeyKinds != OnlyRangeKeyUnsetAndDelete
 }
 
-// verifC23KnownTrigger labels edits that contain a state with a known
-// round-trip defect, so that the violation can be matched precisely.
+// verifC23KnownTrigger labels edits that contain a state that used to break the
+// round trip (Encode omitted the custom-field terminator; fixed in 14dc881c8).
 func verifC23KnownTrigger(ve *VersionEdit) string {
 	for _, nt := range ve.NewTables {
 		if verifC23NoCustomRangeKeyTable(nt.Meta) {
@@ -314,8 +314,6 @@ func verifC23KnownTrigger(ve *VersionEdit) string {
 	}
 	return ""
 }
-
-var verifC23TriggerSeen = map[string]int{}
 
 // verifC23Catch runs f and converts a panic into a message.
 func verifC23Catch(f func()) (msg string) {
@@ -349,19 +347,11 @@ func verifC23CheckRoundTrip(r *vcommon.Report, ve *VersionEdit, lookup func(i in
 	}
 	enc = slices.Clone(buf.Bytes())
 	ok = true
+	// trigger labels a state that once failed to round-trip (fixed in 14dc881c8);
+	// it is kept in the match fields as a regression marker.
 	trigger := verifC23KnownTrigger(ve)
 	if trigger != "" {
-		// Keep the report's violation quota for unlabelled violations.
-		verifC23TriggerSeen[trigger]++
-		r.Count("probe_cases:"+trigger, 1)
-		if verifC23TriggerSeen[trigger] > 2 {
-			var got VersionEdit
-			p := verifC23Catch(func() { err = got.Decode(verifC23NewGuard(enc)) })
-			if p != "" || err != nil || len(func() []string { l, _ := verifC23Diff(want, verifC23CanonEdit(&got)); return l }()) > 0 {
-				r.Count("probe_failures:"+trigger, 1)
-			}
-			return enc, false
-		}
+		r.Count("regression_cases:"+trigger, 1)
 	}
 	for ri, mk := range []func() io.Reader{
 		func() io.Reader { return verifC23NewGuard(enc) },                      // byteReader, used directly (allocation guard, see verifC23Guard)
@@ -370,6 +360,9 @@ func verifC23CheckRoundTrip(r *vcommon.Report, ve *VersionEdit, lookup func(i in
 	} {
 		if light && ri != 0 && ri != 1+len(enc)%2 {
 			continue // sequences: guarded reader plus one of the two bufio paths
+		}
+		if ri == 2 && len(enc) > 1<<15 {
+			continue // byte-at-a-time reads of a long field are prohibitively slow under the race detector
 		}
 		var got VersionEdit
 		if p := verifC23Catch(func() { err = got.Decode(mk()) }); p != "" || err != nil {
@@ -529,10 +522,7 @@ func verifC23WildMeta(rng *rand.Rand, small bool, probe bool) (*TableMetadata, b
 	if nref > 0 {
 		m.BlobReferenceDepth = BlobReferenceDepth(1 + rng.IntN(nref))
 	}
-	if !probe && verifC23NoCustomRangeKeyTable(m) {
-		// See verifC23KnownTrigger: only dedicated probe cases generate this state.
-		m.CreationTime = int64(1 + rng.IntN(1<<30))
-	}
+	_ = probe
 	if m.Virtual {
 		var pre, suf []byte
 		if rng.IntN(2) == 0 {
@@ -564,6 +554,11 @@ func verifC23WildEdit(rng *rand.Rand, small bool, probe bool) *VersionEdit {
 	p := func(n int) bool { return rng.IntN(n) == 0 }
 	if p(4) {
 		ve.ComparerName = string(verifC23Bytes(rng, 1, 30))
+		if !small && p(300) {
+			// longer than one read chunk of versionEditDecoder.readBytes (rare:
+			// the race detector makes 64 KiB fields cost about a second)
+			ve.ComparerName = string(verifC23Bytes(rng, 1<<16-2, 1<<16+4096))
+		}
 	}
 	if p(3) {
 		ve.MinUnflushedLogNum = base.DiskFileNum(u64())
@@ -619,6 +614,9 @@ func verifC23WildEdit(rng *rand.Rand, small bool, probe bool) *VersionEdit {
 	if p(3) {
 		for i, n := 0, 1+rng.IntN(2); i < n; i++ {
 			a, b := verifC23Bytes(rng, 1, 16), verifC23Bytes(rng, 1, 16)
+			if !small && p(400) {
+				b = verifC23Bytes(rng, 1<<16-1, 1<<17+3)
+			}
 			if bytes.Compare(a, b) > 0 {
 				a, b = b, a
 			}
@@ -636,22 +634,108 @@ func verifC23WildEdit(rng *rand.Rand, small bool, probe bool) *VersionEdit {
 	return ve
 }
 
+// verifC23LegacyCase hand-encodes records that only the decoder knows (LevelDB /
+// RocksDB new-file tags 1, 100, 102, compact pointers, ignorable custom tags)
+// and checks that Decode yields the equivalent modern edit.
+func verifC23LegacyCase(r *vcommon.Report, rng *rand.Rand) {
+	want := &VersionEdit{}
+	var enc []byte
+	u := func(v uint64) { enc = binary.AppendUvarint(enc, v) }
+	key := func(k InternalKey) {
+		u(uint64(len(k.UserKey) + 8))
+		enc = append(enc, k.UserKey...)
+		enc = binary.LittleEndian.AppendUint64(enc, uint64(k.Trailer))
+	}
+	for i, n := 0, 1+rng.IntN(3); i < n; i++ {
+		var m *TableMetadata
+		for {
+			m, _ = verifC23WildMeta(rng, false, false)
+			if !m.Virtual && !m.HasRangeKeys && len(m.BlobReferences) == 0 {
+				break
+			}
+		}
+		if rng.IntN(3) == 0 {
+			u(tagCompactPointer)
+			u(uint64(rng.IntN(NumLevels)))
+			b := verifC23Bytes(rng, 0, 12)
+			u(uint64(len(b)))
+			enc = append(enc, b...)
+			r.SetAdd("tags_decoded_legacy", "compact-pointer")
+		}
+		tag := []uint64{tagNewFile, tagNewFile2, tagNewFile3, tagNewFile4}[rng.IntN(4)]
+		level := rng.IntN(NumLevels)
+		switch tag {
+		case tagNewFile:
+			m.SeqNums, m.LargestSeqNumAbsolute, m.CreationTime = base.SeqNumRange{}, 0, 0
+			r.SetAdd("tags_decoded_legacy", "new-file(1)")
+		case tagNewFile2:
+			m.CreationTime = 0
+		case tagNewFile3:
+			m.CreationTime = 0
+			r.SetAdd("tags_decoded_legacy", "new-file3(102)")
+		}
+		u(tag)
+		u(uint64(level))
+		u(uint64(m.TableNum))
+		if tag == tagNewFile3 {
+			u(verifC23U64(rng)) // path id, ignored
+		}
+		u(m.Size)
+		key(m.PointKeyBounds.Smallest())
+		key(m.PointKeyBounds.Largest())
+		if tag != tagNewFile {
+			u(uint64(m.SeqNums.Low))
+			u(uint64(m.SeqNums.High))
+		}
+		if tag == tagNewFile4 {
+			ignorable := func() {
+				if rng.IntN(2) == 0 {
+					u([]uint64{3, 4, 5, 8, 63}[rng.IntN(5)])
+					b := verifC23Bytes(rng, 0, 10)
+					u(uint64(len(b)))
+					enc = append(enc, b...)
+					r.SetAdd("tags_decoded_legacy", "custom:ignorable-unknown")
+				}
+			}
+			ignorable()
+			if m.CreationTime != 0 {
+				u(customTagCreationTime)
+				b := binary.AppendUvarint(nil, uint64(m.CreationTime))
+				u(uint64(len(b)))
+				enc = append(enc, b...)
+			}
+			ignorable()
+			u(customTagTerminate)
+		}
+		want.NewTables = append(want.NewTables, NewTableEntry{Level: level, Meta: m})
+	}
+	r.Count("legacy_decodes", 1)
+	o := verifC23GuardedDecode(enc)
+	if o.ve == nil {
+		r.Violate("decode-error", fmt.Sprintf("legacy encoding rejected: panic=%q err=%v", o.panicV, o.err),
+			map[string]any{"encoded_hex": hex.EncodeToString(enc), "want": verifC23CanonEdit(want)}, map[string]any{"stage": "legacy"})
+		return
+	}
+	if lines, fields := verifC23Diff(verifC23CanonEdit(want), verifC23CanonEdit(o.ve)); len(lines) > 0 {
+		r.Violate("roundtrip-mismatch", "legacy encoding decoded to a different edit: "+strings.Join(lines, "; "),
+			map[string]any{"encoded_hex": hex.EncodeToString(enc), "want": verifC23CanonEdit(want), "got": verifC23CanonEdit(o.ve)}, map[string]any{"fields": fields, "stage": "legacy"})
+	}
+}
+
 func TestVerifC23RoundTrip(t *testing.T) {
 	r := vcommon.NewReport("C23", "roundtrip")
 	defer r.Finish(t)
 	r.Rule("roundtrip: one generated valid VersionEdit per case (every encodable field present with some probability, boundary-biased uint64 values, " +
 		"random byte keys, physical/virtual tables with point and/or range bounds); distinct = distinct encoding; non-trivial = at least one tag emitted")
-	n := vcommon.Scale(12000, 400000)
+	n := vcommon.Scale(10000, 400000)
 	r.Cases(n, func(i int, rng *rand.Rand) {
-		// Every 101st case may contain a range-key table without custom fields
-		// (known encoder/decoder asymmetry, see verifC23KnownTrigger); all
-		// other cases never do, so the oracle stays strict for them.
-		ve := verifC23WildEdit(rng, i%5 == 0 || i%101 == 0, i%101 == 0)
+		ve := verifC23WildEdit(rng, i%5 == 0, true)
 		enc, _ := verifC23CheckRoundTrip(r, ve, func(i int, _ base.DiskFileNum) *TableBacking {
 			// A fresh copy: the decoded edit must not share state with the original.
 			b := ve.NewTables[i].Meta.TableBacking
 			return &TableBacking{DiskFileNum: b.DiskFileNum, Size: b.Size}
 		}, "wild edit", false)
+		verifC23LegacyCase(r, rng)
 		r.Eval(1)
 		r.Count("roundtrip_edits", 1)
 		r.Count("roundtrip_bytes", int64(len(enc)))
@@ -661,6 +745,9 @@ func TestVerifC23RoundTrip(t *testing.T) {
 		}
 		if len(tags) > 0 && enc != nil {
 			r.Distinct("rt", string(enc))
+		}
+		if len(enc) > 1<<16 {
+			r.Count("roundtrip_edits_with_field_longer_than_64KiB", 1)
 		}
 		if r.WantSample() && len(tags) >= 6 {
 			r.Sample(map[string]any{"part": "roundtrip", "case": i, "encoded_hex": hex.EncodeToString(enc), "edit": ve.DebugString(base.DefaultFormatter)})
@@ -855,9 +942,6 @@ func (g *verifC23Gen) meta(lo, hi int, o verifC23MetaOpts) (*TableMetadata, bool
 		m.AttachVirtualBacking(o.virtual)
 	} else {
 		m.InitPhysicalBacking()
-	}
-	if verifC23NoCustomRangeKeyTable(m) {
-		m.CreationTime = int64(1 + rng.IntN(1<<31))
 	}
 	l := m.Largest()
 	loose := l.IsExclusiveSentinel() && bytes.Equal(l.UserKey, verifC23K(hi))
@@ -1406,7 +1490,7 @@ func TestVerifC23Replay(t *testing.T) {
 	defer r.Finish(t)
 	r.Rule("replay: one consistent edit sequence (3-30 edits) per case, generated from a model LSM; distinct = distinct concatenated encoding; " +
 		"non-trivial = sequence in which at least one table is both added and deleted and the final version is non-empty")
-	n := vcommon.Scale(2000, 60000)
+	n := vcommon.Scale(1400, 60000)
 	const rcr = 32000
 	r.Cases(n, func(ci int, rng *rand.Rand) {
 		g := verifC23NewGen(rng)
@@ -1663,17 +1747,20 @@ func TestVerifC23Replay(t *testing.T) {
 // ---------------------------------------------------------------------------
 // Allocation guard.
 //
-// Decode allocates a declared length before reading it (readBytes:
-// make([]byte, n); blob references: make([]BlobReference, n)). A corrupt or
-// misparsed length of, say, 2^35 would make the process allocate (and, under
-// the race detector, touch) tens of GiB on a shared machine. The guard is a
-// pass-through byteReader that follows the varints Decode reads; when a
-// completed varint is (a) read from inside versionEditDecoder.readBytes, or (b)
-// the count that follows a blob-references custom tag, and lies in
-// (verifC23GuardLo, 2^49], it returns errVerifC23Skip instead of the final
-// byte, so Decode fails before allocating. Larger values are let through: they
-// exceed the runtime's maximum allocation and produce a recoverable panic.
-// Nothing else is altered.
+// Before 0f67321ea Decode allocated a declared length before reading it
+// (readBytes: make([]byte, n); blob references: make([]BlobReference, n)), so a
+// corrupt or misparsed length of, say, 2^35 made the process allocate (and,
+// under the race detector, touch) tens of GiB on a shared machine. The fix
+// reads in bounded chunks, but mutants that revert it (and future regressions)
+// must not endanger the machine, so the guard stays: it is a pass-through
+// byteReader that follows the varints Decode reads; when a completed varint is
+// (a) read from inside versionEditDecoder.readBytes, or (b) the count that
+// sizes the blob-reference slice, lies in (verifC23GuardLenLo resp.
+// verifC23GuardCountLo, 2^49] AND exceeds what the remaining input could
+// possibly supply (so decoding is bound to fail), it returns errVerifC23Skip
+// instead of the final byte and Decode fails before allocating. Larger values
+// are let through: with a pre-allocating decoder they exceed the runtime's
+// maximum allocation and produce a recoverable panic. Nothing else is altered.
 
 const (
 	verifC23GuardLenLo   = 1 << 12
@@ -1767,7 +1854,8 @@ func (g *verifC23Guard) ReadByte() (byte, error) {
 		}
 		return b, nil
 	}
-	dangerLen := func(x uint64) bool { return x > verifC23GuardLenLo && x <= verifC23GuardHi }
+	remaining := uint64(g.r.Len())
+	dangerLen := func(x uint64) bool { return x > verifC23GuardLenLo && x <= verifC23GuardHi && x > remaining }
 	if dangerLen(v) || dangerLen(v2) {
 		if verifC23InReadBytes() {
 			g.tripped = v
@@ -1775,7 +1863,7 @@ func (g *verifC23Guard) ReadByte() (byte, error) {
 			return 0, errVerifC23Skip
 		}
 	}
-	if v > verifC23GuardCountLo && v <= verifC23GuardHi {
+	if v > verifC23GuardCountLo && v <= verifC23GuardHi && v > remaining/2 {
 		site := verifC23CountSite()
 		isCount := false
 		if site != 0 {
@@ -2127,8 +2215,8 @@ func TestVerifC23Fuzz(t *testing.T) {
 	r.Rule("fuzz: each case builds a corpus of 6 valid encodings and derives 64 byte strings from it (random bytes, varint soup, structured new-file soup, " +
 		"bit flips, byte sets, truncation, splice, insert, delete, tag swap, concatenation, huge varints, unmutated); distinct = distinct behaviour signature " +
 		"(strategy, outcome, error kind with numbers removed, record kinds of the decoded edit); non-trivial = non-empty input that was executed (not skipped by the allocation guard)")
-	r.Assume("length prefixes and blob-reference counts in (2^12 resp. 2^8, 2^49] are not executed: Decode allocates the declared size before reading; such inputs are counted in fuzz_skipped_by_guard")
-	n := vcommon.Scale(2400, 64000)
+	r.Assume("length prefixes / blob-reference counts in (2^12 resp. 2^8, 2^49] that exceed the remaining input are not executed (a pre-allocating decoder would allocate the declared size before failing); such inputs are counted in fuzz_skipped_by_guard")
+	n := vcommon.Scale(1600, 64000)
 	const perCase = 64
 	panicsSeen := map[string]int{}
 	mismatchSeen := map[string]int{}
